@@ -609,7 +609,9 @@ func mkPlan(n int) Plan {
 	p := Plan{}
 	for k := 0; k < n; k++ {
 		p.Sid = append(p.Sid, strconv.Itoa(500+k))
-		p.Pid = append(p.Pid, 25000+k)
+		// distinct pids, pairwise congruent modulo 2^16 (pid_max is 2^22 on
+		// 64-bit Linux): sessions 2j and 2j+1 differ only above bit 15
+		p.Pid = append(p.Pid, 25000+k/2+(k%2)*65536*(1+(k/2)%60))
 	}
 	return p
 }
